@@ -63,7 +63,7 @@ func (s *state) ProcessDescriptor(desc SegmentationDescriptor) ([]SegmentationDe
 	var err error
 	var closed []SegmentationDescriptor
 	// check if desc has a pts because we can't handle if it doesn't
-	if !desc.SCTE35().HasPTS() {
+	if desc.SCTE35() == nil || !desc.SCTE35().HasPTS() {
 		return nil, gots.ErrSCTE35UnsupportedSpliceCommand
 	}
 	// check if this is a duplicate - if not, add it to the received list and
